@@ -2,6 +2,8 @@
 
 Decides structural clauses (see DESIGN.md §4 C15); not the behaviour on inputs.
 """
+import json
+
 from rules import hirq, mirq, balance, inventory
 from rules.core import walk, norm_path, AnchorMissing
 
@@ -586,6 +588,69 @@ def r11_eos(run, F):
            "the lexer's tail expression must be buffer.push_end_of_source(..)")
 
 
+def r11b_one_take_past_end(run, F):
+    """Tokens::take advances the cursor even when it returns EndOfSource, and the lexer pushes exactly two end markers: after a
+    take() whose token may still be EndOfSource nothing else may be consumed.  Path rule on the MIR of every parser function:
+    from a take(), every path to another consuming call (take / consume / consume_optional / a parse_* function) passes an
+    edge of a switch on the taken token that excludes EndOfSource."""
+    variants = [v["name"] for v in F.lib.adts["delta::lexer::BaseToken"]["variants"]]
+    eos = variants.index("EndOfSource")
+    TK = "delta::parser::tokens::Tokens::"
+    n = 0
+    for p, b in sorted(F.lib.bodies.items()):
+        if "mir" not in b or not p.startswith("delta::parser::parse") or "{closure" in p:
+            continue
+        cfg = mirq.CFG(b)
+
+        def consumer(t):
+            c = mirq.call_target(t) or ""
+            return c in (TK + "take", TK + "consume", TK + "consume_optional") or (c.startswith("delta::parser::parse") and "::parse_tree::" not in c and "::parse_node::" not in c)
+        for u, t in cfg.calls():
+            if (mirq.call_target(t) or "") != TK + "take" or not isinstance(t.get("dest"), int) or t.get("to") is None:
+                continue
+            # a take() whose token is never looked at follows a peek() that selected an explicit token (R11-DISCARDED-TAKE)
+            d0 = t["dest"]
+            text = json.dumps([blk["s"] for blk in cfg.blocks]) + json.dumps([{k: v for k, v in blk["t"].items() if k in ("args", "on")} for blk in cfg.blocks])
+            used = ('"cp": %d}' % d0) in text or ('"mv": %d}' % d0) in text or ('"p": %d}' % d0) in text or ('"p": %d,' % d0) in text
+            if not used:
+                continue
+            n += 1
+            aliases = {t["dest"]}
+            seen = set()
+            work = [t["to"]]
+            bad = None
+            while work and bad is None:
+                x = work.pop()
+                if x in seen:
+                    continue
+                seen.add(x)
+                dl = None
+                for st in cfg.blocks[x]["s"]:
+                    r = st["r"]
+                    if r.get("k") == "Use" and mirq.op_local(r["a"]) in aliases and isinstance(st["d"], int):
+                        aliases.add(st["d"])
+                    if r.get("k") == "Discr" and isinstance(r.get("p"), int) and r["p"] in aliases:
+                        dl = st["d"]
+                tt = cfg.term(x)
+                if tt["k"] == "Switch" and dl is not None and mirq.op_local(tt["on"]) == dl:
+                    explicit = [v for v, bb in tt["targets"]]
+                    for v, bb in tt["targets"]:
+                        if v == eos:
+                            work.append(bb)
+                    if eos not in explicit and tt.get("otherwise") is not None:
+                        work.append(tt["otherwise"])
+                    continue
+                if tt["k"] == "Call" and consumer(tt):
+                    bad = (x, mirq.call_target(tt), tt.get("l"))
+                    break
+                for y in cfg.succ[x]:
+                    work.append(y)
+            run.ob("R11-ONE-TAKE-PAST-END", "%s|take@%s" % (p.split("::")[-1], len([1 for uu, tx in cfg.calls() if (mirq.call_target(tx) or "") == TK + "take" and uu < u])), bad is None,
+                   F.where(b, t), "after this take() the token may still be EndOfSource when %s is reached (line %s): a second step past the end leaves the cursor "
+                   "beyond both end markers and error recovery panics in skip_until" % ((bad or (0, "?", 0))[1], (bad or (0, 0, "?"))[2]))
+    run.require(n >= 6, "parser: take() call sites whose token is inspected not found (%d)" % n)
+
+
 def r12_protocol(run, F):
     """parse() only on the None edge of Tokens::errors(); build_header/as_xml only on the None edge of ParseTree::errors()."""
     users = [("lib", "delta::test_suite::compile"), ("bin", "compile_to_ir_using_delta")]
@@ -655,6 +720,7 @@ def check(run):
     r8_recursion(run, F)
     r10_args_covered(run, F)
     r11_eos(run, F)
+    r11b_one_take_past_end(run, F)
     r12_protocol(run, F)
     if run.tier == "thorough":
         r3_witness(run, F)
